@@ -117,7 +117,9 @@ def run(ctx):
                        "Expand,Typecheck,Effects,Render,Lex}.lean; reader Driver/MiniAldor.lean; generator vlib/miniald.py")
     ctx.assumptions.append("C01 proper (compiled output = reference evaluator) is decided by correspondence on generated "
                            "programs, not by a theorem: the compiler pipeline is not modelled (DESIGN.md §4 C01)")
-    if not os.path.exists(common.lean_driver()):
+    try:
+        common.ensure_driver("miniald")
+    except RuntimeError:
         common.report_proof_failure(ctx, "Lean driver missing")
         return
     rng = ctx.rng
